@@ -150,10 +150,14 @@ def try_branch_sources(cfg, p):
 
 
 class Explorer:
-    def __init__(self, cfg, block_effect=None, edge_effect=None, max_states=400000, use_var_facts=True, var_roots=None):
+    def __init__(self, cfg, block_effect=None, edge_effect=None, max_states=400000, use_var_facts=True, var_roots=None, extra_flags=None):
         self.cfg = cfg
         self.body = cfg.body
         allflags = find_flag_locals(cfg)
+        # extra_flags: bool locals that also have non-constant definitions (call results, negations): their value is simply
+        # unknown after such a definition and learnt again on the edges of a switch over them
+        if extra_flags:
+            allflags = set(allflags) | set(extra_flags)
         self.sw = analyse_switches(cfg, allflags)
         # only flags that (transitively through copies) reach a switch matter
         used = set(i.flag for i in self.sw.values() if i.flag is not None)
